@@ -270,7 +270,7 @@ def runIter (j : Json) : Except String Json := do
     ("agree", reuseAgree && mainAgree), ("holds", reuseHolds && mainHolds),
     ("model", Json.mkObj [("before", takeToJson mBefore), ("after", takeToJson mAfter),
       ("reused", takeToJson mReused), ("main", mainModel)]),
-    ("need", Nat.max (need userKinds src (srcLen src) k) (primeNeed src (srcLen src) [] userKinds)),
+    ("need", needFrom userKinds src (srcLen src) k (primeNeed userKinds src (srcLen src))),
     ("branch", br), ("why", why)]
 
 /-! ### Invoke -/
